@@ -420,6 +420,10 @@ func checkC04(c *Ctx, r *Report, tier string) {
 	r.Rule("C04.R7", "no committed entry is skipped or replayed twice: the Ready loop applies the committed entries of every Ready, also of one that carries a snapshot; a received snapshot wipes the whole stored log, so a restart cannot re-deliver a stale prefix on top of it", 3)
 	readyPartsIndependent(c, r, "C04.R7")
 	persistOrder(c, r, "C04.R7")
+	r.Rule("C04.R8", "every replica is fed the same entries and serving a read changes nothing: Entries returns a contiguous prefix under the size limit (borrowed from C06.R8), decoded entries own their bytes, and no element of a search result's metadata (which is the stored vertex's map) is written or deleted", 3)
+	borrow(c, r, "C06", "C06.R8", "C04.R8", "size-limit")
+	decodedEntriesOwnTheirBytes(c, r, "C04.R8")
+	publishedVertexWrites(c, r, "C04.R8")
 }
 
 // levelFromLog: the level value comes from GetLevel() of the entry or Level() of an existing vertex, possibly through
@@ -666,4 +670,7 @@ func checkC08(c *Ctx, r *Report, tier string) {
 	borrow(c, r, "C01", "C01.R1", "C08.R6", "Remove")
 	borrow(c, r, "C01", "C01.R2", "C08.R6", "")
 	validatorMeasuresBytes(c, r, "C08.R6")
+	r.Rule("C08.R7", "the bytes of a snapshot stay what they were when it was taken, and only states the format can express are reachable: snapshot bytes come from a buffer local to the call; every item of a value-carrying batch passes the dimension and metadata guard (borrowed from C11.R4)", 3)
+	snapshotIsFresh(c, r, "C08.R7", "partition")
+	borrow(c, r, "C11", "C11.R4", "C08.R7", "")
 }
